@@ -1620,21 +1620,31 @@ fn gen_c11(lvl: u8) -> Vec<Scenario> {
     // every strong handle is dropped while an accepted stop request (or an accepted tell) is still queued behind a
     // busy handler: a weak handle still upgrades
     for queued in 0..2 {
-        for cap in [2usize, 3] {
+        for busy in [false, true] {
             let mut ids = Ids(0);
-            let a = ActorSpec::plain(cap);
-            let mut slow = MsgSpec::m1(ids.next()).steps(vec![Step::Sleep(20)]);
-            slow.entry_yield = false;
-            let mut steps = vec![send(SendKind::Tell, 0, slow), Step::Sleep(1), Step::Downgrade { from: 0, to: 2 }];
+            let a = ActorSpec::plain(3);
+            let mut steps = Vec::new();
+            if busy {
+                let mut slow = MsgSpec::m1(ids.next()).steps(vec![Step::Sleep(20)]);
+                slow.entry_yield = false;
+                steps.push(send(SendKind::Tell, 0, slow));
+            }
+            // (the actor has started and is idle, or sits in the slow handler; what follows happens without the actor
+            // task being polled in between)
+            steps.push(Step::Sleep(1));
+            steps.push(Step::Downgrade { from: 0, to: 2 });
+            steps.push(Step::Fuse);
             steps.push(if queued == 0 { Step::Stop(0) } else { send(SendKind::Tell, 0, MsgSpec::quick(ids.next())) });
             steps.push(Step::Fuse);
             steps.push(Step::DropH(0));
+            steps.push(Step::Fuse);
             steps.push(Step::Upgrade { from: 2, to: 1 });
+            steps.push(Step::Fuse);
             steps.push(Step::Ident(1));
             steps.push(Step::DropH(1));
             let c0 = Program::new(vec![(0, 0)], steps);
             n += 1;
-            out.push(scn(format!("c11-{n}-unreferenced-but-{}-queued-cap{cap}", if queued == 0 { "stop" } else { "tell" }), vec![a], vec![c0], &[]));
+            out.push(scn(format!("c11-{n}-unreferenced-but-{}-queued-busy{busy}", if queued == 0 { "stop" } else { "tell" }), vec![a], vec![c0], &[]));
         }
     }
     out
@@ -1943,6 +1953,24 @@ fn gen_c14(lvl: u8) -> Vec<Scenario> {
             s.registry = true;
             out.push(s);
         }
+    }
+    // a nested 2-cycle disturbed from outside while A0's ask is in flight: A0 is killed (a kill does not interrupt a
+    // handler, A0 keeps waiting), or a bystander's bounded ask to A1 expires; then A1 asks A0 back
+    for disturb in 0..3 {
+        let mut ids = Ids(0);
+        let closing = MsgSpec::m1(ids.next());
+        let mid = MsgSpec::m1(ids.next()).steps([vec![Step::Sleep(10)], ask_steps(EdgeKind::Ask, 0, closing)].concat());
+        let start = MsgSpec::m1(ids.next()).steps(ask_steps(EdgeKind::Ask, 1, mid));
+        let c0 = Program::new(vec![(0, 0)], vec![send(SendKind::Tell, 0, start)]);
+        let c1 = match disturb {
+            0 => Program::new(vec![(0, 0)], vec![Step::Sleep(5), Step::Kill(0)]),
+            1 => Program::new(vec![(0, 1)], vec![Step::Sleep(1), send(SendKind::AskTO(5), 0, MsgSpec::m1(ids.next()))]),
+            _ => Program::new(vec![(0, 1)], vec![Step::Sleep(1), send(SendKind::TellTO(5), 0, MsgSpec::m1(ids.next())), send(SendKind::AskTO(3), 0, MsgSpec::m1(ids.next()))]),
+        };
+        n += 1;
+        let mut s = scn(format!("c14-{n}-chain2-disturbed-{}", ["asker-killed", "bystander-ask-expires", "bystander-tell-and-ask"][disturb]), (0..2).map(|_| ActorSpec::plain(3)).collect(), vec![c0, c1], &["quiet"]);
+        s.registry = true;
+        out.push(s);
     }
     // an ask that timed out while still queued, a retry to the same callee, and then the callee asks back:
     // the late answer to the abandoned ask must not hide the edge of the retry
@@ -2668,10 +2696,15 @@ fn gen_c12(lvl: u8) -> Vec<Scenario> {
         AskUnwound,
         /// nobody is meant to crash: V's handler has two asks in flight at once (both to Q, which never asks anybody)
         OverlappingAsks,
+        /// not V but the actor spawned later (by client 2, or by Q's handler) panics in the very first instruction
+        /// of its on_start: that is the new actor's failure, not the spawner's
+        LateSpawnPanics(bool),
     }
     let mut crashes = vec![
         Crash::AskUnwound,
         Crash::OverlappingAsks,
+        Crash::LateSpawnPanics(false),
+        Crash::LateSpawnPanics(true),
         Crash::StartPanic,
         Crash::StartErr,
         Crash::HandlerPanic(1),
@@ -2696,6 +2729,9 @@ fn gen_c12(lvl: u8) -> Vec<Scenario> {
             let q = ActorSpec::plain(3);
             let mut extra = ActorSpec::plain(2);
             extra.at_start = false;
+            if let Crash::LateSpawnPanics(_) = crash {
+                extra.on_start = HookSpec { entry_yield: false, steps: vec![], out: Outcome::Panic(5), free: true };
+            }
             v.on_start = gated(match crash {
                 Crash::StartPanic => Outcome::Panic(1),
                 Crash::StartErr => Outcome::Err(1),
@@ -2738,8 +2774,11 @@ fn gen_c12(lvl: u8) -> Vec<Scenario> {
                 Crash::CycleWithPeer => d2 = d2.steps(vec![send(SendKind::Ask, REG_BASE + 1, MsgSpec::quick(ids.next()))]),
                 _ => {}
             }
-            let mq1 = MsgSpec::m1(ids.next());
+            let mut mq1 = MsgSpec::m1(ids.next());
             let mq2 = MsgSpec::m1(ids.next());
+            if let Crash::LateSpawnPanics(true) = crash {
+                mq1 = mq1.steps(vec![Step::Spawn { actor: 3, to: 7 }]);
+            }
             let work1 = MsgSpec::m1(ids.next()).steps(vec![send(SendKind::Ask, REG_BASE, mv1), send(SendKind::Ask, REG_BASE + 2, mq1)]);
             let work2 = MsgSpec::m1(ids.next()).steps(vec![send(SendKind::Ask, REG_BASE + 2, mq2), send(SendKind::AskTO(10), REG_BASE, mv2)]);
             let c0 = Program::new(vec![(0, 1)], vec![send(SendKind::Tell, 0, work1), send(SendKind::Tell, 0, work2)]);
@@ -2766,6 +2805,11 @@ fn gen_c12(lvl: u8) -> Vec<Scenario> {
                     send(SendKind::Ask, 1, MsgSpec::m1(ids.next())),
                 ],
             );
+            let mut c2 = c2;
+            if let Crash::LateSpawnPanics(true) = crash {
+                // Q's handler spawns the late actor; client 2 does not
+                c2.steps.retain(|st| !matches!(st, Step::Spawn { .. } | Step::Ident(2)) && !matches!(st, Step::Send { slot: 2, .. }));
+            }
             n += 1;
             let mut s = scn(format!("c12-{n}-{crash:?}-t{traffic}"), vec![v, p, q, extra], vec![c0, c1, c2], &[]);
             s.registry = true;
